@@ -14,7 +14,7 @@ THEOREMS = ["C18_builtin", "C18_earth_object", "C18_set_ellipsoid", "C18_on_elli
             "C18_distance_equator", "C18_distance_value", "C18_parallax_correction_closed_form",
             "C18_parallax_declination_bound", "C18_central_angle", "C18_distance_great_circle",
             "C18_distance_great_circle_angle", "C18_builtin_flattening", "C18_parallax_displacement_bound", "C18_rho_bound",
-            "C18_parallax_dalpha_tan", "C18_andoyer_meridian_first_order", "C18_distance_meridian_arc",
+            "C18_parallax_dalpha_tan", "C18_parallax_range", "C18_andoyer_meridian_first_order", "C18_distance_meridian_arc",
             "C18_distance_meridian_arc_angle"]
 PROOF_TIMEOUT = {"quick": 1500, "thorough": 3000}
 EXHAUSTIVE = False
@@ -74,9 +74,9 @@ CLAUSES = {
     "parallax correction in declination tends to 0 as distance grows: |sin dec' - sin dec| <= 2q/(1-q), q = rho sin(8.794'')/distance":
         "proved [spec function topo_dec, tied to the code by C18_parallax_correction_closed_form; every declination of the body and hour angle; 2q/(1-q) is about TWICE the horizontal parallax: weaker than the property's bound, it only shows the 1/distance decay]",
     "parallax_correction never displaces by more than the horizontal parallax and tends to 0 with distance":
-        "proved [ideal, C18_parallax_displacement_bound, tied to the code by C18_parallax_correction_closed_form; measure: angle theta between the geocentric direction (ra, dec) and the returned direction (ra + delta_alpha, dec'); for distance > C = (1+|h|/a) sin 8.794'' (4.3e-5 AU): sin theta <= rho sin(8.794'')/distance <= C/distance and cos theta > 0, i.e. theta <= asin(rho sin pi/distance), rho <= 1+|h|/a the observer's geocentric distance (C18_rho_bound; rho = 1 only at sea level on the equator: the literal bound asin(sin pi/distance) is exceeded by the factor rho <= 1.0015 at 9000 m); every declination and hour angle; tan(delta_alpha) in Meeus' form: C18_parallax_dalpha_tan]",
+        "proved [ideal, C18_parallax_displacement_bound, tied to the code by C18_parallax_correction_closed_form; measure: angle theta between the geocentric direction (ra, dec) and the returned direction (ra + delta_alpha, dec'); for distance > C = (1+|h|/a) sin 8.794'' (4.3e-5 AU): sin theta <= rho sin(8.794'')/distance <= C/distance and cos theta > 0, i.e. theta <= asin(rho sin pi/distance), rho <= 1+|h|/a the observer's geocentric distance (C18_rho_bound; rho = 1 only at sea level on the equator: the literal bound asin(sin pi/distance) is exceeded by the factor rho <= 1.0015 at 9000 m); every declination and hour angle; the hypothesis holds on the whole range |h| <= 9000 m, distance >= 1e-3 AU (C18_parallax_range, C <= 4.3e-5); tan(delta_alpha) in Meeus' form: C18_parallax_dalpha_tan]",
     "parallax_ecliptical: closed form, returned latitude = latitude of the topocentric vector, displacement <= horizontal parallax, -> 0 with distance":
-        "proved [ideal, THOROUGH-TIER obligations T18_parallax_ecliptical_closed_form (pins the code: transcription, all three branches of the latitude folding; hypotheses n != 0, asin argument in [-1,1], distance != 0), T18_ecliptical_latitude (folded atan2(cos lon' Z, n) = atan2(Z, hypot(n, Y))), T18_parallax_ecliptical_displacement_bound (same measure and constants as for parallax_correction: sin theta <= rho sin(8.794'')/distance <= C/distance, cos theta > 0, for n != 0 and distance > C)]; quick tier: searched (independent vector computation 1e-9 rad, bound, semidiameter); the semidiameter clause has only the closed form",
+        "proved [ideal, THOROUGH-TIER obligations T18_parallax_ecliptical_closed_form (pins the code: transcription, all three branches of the latitude folding; hypotheses n != 0, asin argument in [-1,1], distance != 0), T18_ecliptical_latitude (folded atan2(cos lon' Z, n) = atan2(Z, hypot(n, Y))), T18_parallax_ecliptical_displacement_bound (same measure and constants as for parallax_correction: sin theta <= rho sin(8.794'')/distance <= C/distance, cos theta > 0, for n != 0 and distance > C), T18_ecliptical_semidiameter (asin argument = sin(semidiameter)/|w|) and T18_ecliptical_topocentric_distance ((1-q)^2 <= |w|^2 <= (1+q)^2)]; quick tier: searched (independent vector computation 1e-9 rad, bound, semidiameter)",
     "binary64 rounding of all of the above": "unproved (searched); correspondence stage ties binary64 runs to the model text bit for bit",
 }
 
